@@ -72,6 +72,15 @@ def cancelled_call_blocked(h):
     return h
 
 
+SELFTESTS = [
+    ("BrokerTrace rejects a Publish left blocked while every subscriber receives", TRACE, publish_never_returns, "progress/publish-blocked"),
+    ("BrokerTrace rejects a non-empty distributor at a live quiescent point", TRACE, buffer_not_empty, "progress/accepted-not-dispatched"),
+    ("BrokerTrace rejects a broker goroutine left after Stop", TRACE, goroutine_left, "shutdown/goroutine-left"),
+    ("BrokerTrace rejects a Wait that has not returned after Stop", TRACE, wait_never_returns, "shutdown/wait-blocked"),
+    ("BrokerTrace rejects a call left blocked although its context is cancelled", TRACE, cancelled_call_blocked, "shutdown/call-ignores-its-context"),
+]
+
+
 def run(rep, tier, seed, replay_file=None):
     quick = tier == "quick"
     rep.assumptions += [
@@ -88,27 +97,29 @@ def run(rep, tier, seed, replay_file=None):
     if replay_file:
         bc.replay_file(rep, replay_file, [TRACE])
         return
-    binary = harness.build("vh-broker")
-    if bc.run_impl(rep, bc.progress_models(quick), workers=4 if quick else 5, parallel=3):
-        bc.run_asis(rep, ["stats", "wait", "recv"])
-    scheds, _ = bc.gen_schedules(rep, quick, seed, 2200 if quick else 9000)
-    hists = bc.run_schedules(rep, binary, scheds, 12, seed, "broker/sched") if scheds else []
+    with bc.phase(rep, "build"):
+        binary = harness.build("vh-broker")
+    with bc.phase(rep, "impl-models"):
+        if bc.run_impl(rep, bc.progress_models(quick), workers=4 if quick else 5, parallel=3):
+            bc.run_asis(rep, ["stats", "wait", "recv"])
+    with bc.phase(rep, "schedule-generation"):
+        scheds, _ = bc.gen_schedules(rep, quick, seed, 2200 if quick else 9000)
+    with bc.phase(rep, "schedule-execution"):
+        hists = bc.run_schedules(rep, binary, scheds, 12, seed, "broker/sched") if scheds else []
     if hists:
-        bc.judge(rep, hists, TRACE, "broker/sched", shards=8)
+        with bc.phase(rep, "trace-validation"):
+            bc.judge(rep, hists, TRACE, "broker/sched", shards=8)
         rep.sample(dict(kind="driver schedule (BrokerStep) executed with observation at quiescence", schedule=scheds[len(scheds) // 3]))
         rep.sample(dict(kind="recorded history judged by BrokerTrace", events=max(hists[:200], key=len)[:30]))
-    rec = bc.record(rep, binary, 600 if quick else 6000, seed)
+    with bc.phase(rep, "recorder"):
+        rec = bc.record(rep, binary, 600 if quick else 6000, seed)
     if rec:
-        bc.judge(rep, rec, TRACE, "broker/record", shards=8)
+        with bc.phase(rep, "trace-validation"):
+            bc.judge(rep, rec, TRACE, "broker/record", shards=8)
     else:
         rep.infra_error("recorder produced no history")
-    bc.mutate_selftests(rep, hists + rec, [
-        ("BrokerTrace rejects a Publish left blocked while every subscriber receives", TRACE, publish_never_returns, "progress/publish-blocked"),
-        ("BrokerTrace rejects a non-empty distributor at a live quiescent point", TRACE, buffer_not_empty, "progress/accepted-not-dispatched"),
-        ("BrokerTrace rejects a broker goroutine left after Stop", TRACE, goroutine_left, "shutdown/goroutine-left"),
-        ("BrokerTrace rejects a Wait that has not returned after Stop", TRACE, wait_never_returns, "shutdown/wait-blocked"),
-        ("BrokerTrace rejects a call left blocked although its context is cancelled", TRACE, cancelled_call_blocked, "shutdown/call-ignores-its-context"),
-    ])
+    with bc.phase(rep, "self-tests"):
+        bc.mutate_selftests(rep, hists + rec, SELFTESTS)
     rep.cov["rule"] = ("schedules = scenarios of BrokerStep (publish bursts of 1-4 before / while subscribers receive, pause and resume, "
                        "Stop / parent cancel at idle, mid-dispatch, mid-publish and with backlog, Wait before and after Stop, every API call "
                        "with an already or later cancelled context) x every back-end x ParallelDispatch x WorkerPoolSize x BufferSize, "
